@@ -100,6 +100,8 @@ fn client_err_text(e: &ClockBoundError) -> String {
         ClockBoundErrorKind::SegmentNotInitialized => "notinit",
         ClockBoundErrorKind::SegmentMalformed => "malformed",
         ClockBoundErrorKind::CausalityBreach => "causality",
+        #[allow(unreachable_patterns)]
+        _ => "other",
     };
     let d = if e.detail.is_empty() { "-".to_string() } else { e.detail.replace(' ', "_") };
     format!("err {} {} {}", k, e.errno.0, d)
@@ -160,7 +162,7 @@ fn res_counts() -> (usize, usize) {
 
 /// runs `f` in a forked child that has dropped to uid/gid 65534 with RLIMIT_MEMLOCK = 0 (an ordinary,
 /// unprivileged client process) and returns the text it produced; `crash <status>` if the child died
-fn in_unprivileged_child(f: impl FnOnce() -> String) -> String {
+pub fn in_unprivileged_child(f: impl FnOnce() -> String) -> String {
     use std::io::Read;
     use std::os::unix::io::FromRawFd;
     let mut fds = [0i32; 2];
